@@ -1,6 +1,7 @@
 package harness
 
 import (
+	"runtime"
 	"context"
 	"os"
 	"encoding/binary"
@@ -500,6 +501,17 @@ func (w *cWorld) onIfcall(op string, n int, c *libif.Ifconfig) error {
 			}
 			return fmt.Errorf("scripted SetIface failure")
 		}
+		if w.r2 != nil && w.r2.Intn(8) == 0 {
+			// a link-up while the interface is being configured: the lease just configured is re-validated at once
+			w.record(L{3, 1, 1, 0, 0, now}, nil)
+			ifmon.VerifLinkUp(w.name)
+			// let the link monitor act on it before SetIface returns (the client must find its context cancelled when it
+			// comes back from configuring, not some statements later)
+			for i := 0; i < 50; i++ {
+				runtime.Gosched()
+			}
+			return nil
+		}
 		w.record(L{3, 0, 1, 0, 0, now}, nil)
 		// bound: sleeping until T1, possibly woken by a link-up
 		if w.r.Intn(4) == 0 {
@@ -699,4 +711,55 @@ func TestC15Deadlines(t *testing.T) {
 			c.add(1503, "deadlines", true, args(L{uint64(lease) * 1e9, uint64(t1) * 1e9, uint64(t2) * 1e9}), args(L{off(a), off(b), off(x)}))
 		})
 	}
+}
+
+// TestC16Stall: a transmission that takes long (a slow write, a starved process) must not be made up for by a burst: the
+// retransmissions after it are still at least 700 ms apart with non-decreasing spacing (C16).  sendMessage itself, on the
+// in-memory socket whose OnSend hook sleeps (virtual time).
+func TestC16Stall(t *testing.T) {
+	vl := &violationLog{}
+	for _, stallAt := range []int{1, 2, 3, 5} {
+		for _, stall := range []time.Duration{900 * time.Millisecond, 3 * time.Second, 8 * time.Second, 40 * time.Second} {
+			synctest.Test(t, func(t *testing.T) {
+				atomic.AddInt64(&vl.n, 1)
+				name := fmt.Sprintf("sif%d", atomic.AddInt64(&ifaceSeq, 1))
+				ifc := &net.Interface{Index: 5, Name: name, HardwareAddr: net.HardwareAddr{2, 0xdd, 0, 0, 0, 4}, MTU: 1500}
+				seg := rsocks.VerifSegment(name)
+				defer rsocks.VerifDropSegment(name)
+				start := time.Now()
+				var ts []time.Duration
+				n := 0
+				seg.OnSend = func(f rsocks.Frame) {
+					if f.Kind != rsocks.KindIP {
+						return
+					}
+					n++
+					ts = append(ts, time.Since(start))
+					if n == stallAt {
+						time.Sleep(stall)
+					}
+				}
+				payload := udpip(0, 0xffffffff, 68, 67, 17, 64, (&simClient{mac: []byte{2, 0xdd, 0, 0, 0, 4}, xid: 9}).msg(1, 0, 0).bytes())
+				ctx, cancel := context.WithTimeout(context.Background(), 150*time.Second)
+				defer cancel()
+				dclient.VerifSendMessage(ctx, ifc, func() ([]byte, net.IP, net.IP) { return payload, nil, nil })
+				var prev time.Duration
+				for i := 1; i < len(ts); i++ {
+					gap := ts[i] - ts[i-1]
+					if gap < 700*time.Millisecond {
+						vl.add("retx-gap", "transmission %d stalled for %v: transmission %d follows %d after only %v (< 700 ms); all instants: %v", stallAt, stall, i+1, i, gap, ts)
+						break
+					}
+					// the transmission after the stalled one comes (stall + delay) later: spacing is judged from there on again
+					if i != stallAt && i != stallAt+1 && gap < prev {
+						vl.add("retx-shrinking", "transmission %d stalled for %v: spacing %v after %v; all instants: %v", stallAt, stall, gap, prev, ts)
+						break
+					}
+					prev = gap
+				}
+			})
+		}
+	}
+	vl.write(t, "c16stall", map[string]interface{}{"distinct_nontrivial": int(atomic.LoadInt64(&vl.n)), "histogram": map[string]int{"stall:exchange": int(atomic.LoadInt64(&vl.n))},
+		"samples": []string{"sendMessage for 150 s of virtual time with the 1st / 2nd / 3rd / 5th transmission taking 0.9 / 3 / 8 / 40 s: gaps >= 700 ms, spacing non-decreasing apart from the stalled step"}})
 }
